@@ -35,6 +35,15 @@ def run_g11(chk, G11, repo):
             # a local bound to a pipeline stage (canonical = (tuple(f(p)) for p in _partitions(..)))
             g_ = pm.functions.get(fn)
             if g_ is not None:
+                # an iterative construction: the collection of partitions is seeded with the empty partition `[()]` and
+                # extended element by element
+                for a_ in walk_no_nested(g_.node):
+                    tg_ = a_.targets[0] if isinstance(a_, ast.Assign) and len(a_.targets) == 1 else getattr(a_, 'target', None) \
+                        if isinstance(a_, ast.AnnAssign) else None
+                    v_ = getattr(a_, 'value', None)
+                    if isinstance(tg_, ast.Name) and tg_.id == e.id and isinstance(v_, ast.List) and len(v_.elts) == 1 \
+                            and isinstance(v_.elts[0], ast.Tuple) and not v_.elts[0].elts:
+                        return 3
                 for a_ in walk_no_nested(g_.node):
                     if isinstance(a_, ast.Assign) and len(a_.targets) == 1 and isinstance(a_.targets[0], ast.Name) \
                             and a_.targets[0].id == e.id and isinstance(a_.value, (ast.GeneratorExp, ast.ListComp, ast.Call)):
@@ -108,7 +117,7 @@ def run_g11(chk, G11, repo):
                       witness='a base model with an IIV block whose eta names are not in lexicographic order (ETA_V, ETA_CL): '
                               'the current structure is not recognised and is emitted as a duplicate candidate')
     # parts grow by appending the next element
-    gp = pm.functions.get('_partitions')
+    gp = pm.functions.get('_partitions') or pm.functions.get('partitions')      # merged into its caller: look there
     if gp is None:
         raise AnalysisError('G11: _partitions not found')
     suffix = None
@@ -266,10 +275,22 @@ def run_g15(chk, G15, repo):
     for mname, m in mf.methods.items():
         if not mname.startswith('_lnt_'):
             continue
-        for sub in [x for x in ast.walk(m.node) if isinstance(x, ast.Subscript) and isinstance(x.slice, ast.Tuple)
-                    and x.slice.elts and isinstance(x.slice.elts[0], ast.Constant) and isinstance(x.slice.elts[0].value, str)
-                    and isinstance(x.value, ast.Name) and 'func' in x.value.id]:
+        # the key may be written in the subscript or held in a local (`key = ('TRANSITS', n, depot.name); funcs[key]`)
+        local_keys = {a_.targets[0].id: a_.value for a_ in ast.walk(m.node) if isinstance(a_, ast.Assign)
+                      and isinstance(a_.targets[0], ast.Name) and isinstance(a_.value, ast.Tuple)}
+        subs_ = []
+        for x in ast.walk(m.node):
+            if isinstance(x, ast.Subscript) and isinstance(x.value, ast.Name) and 'func' in x.value.id \
+                    and isinstance(x.ctx, ast.Load):
+                sl = local_keys.get(x.slice.id) if isinstance(x.slice, ast.Name) else x.slice
+                if isinstance(sl, ast.Tuple) and sl.elts and isinstance(sl.elts[0], ast.Constant) \
+                        and isinstance(sl.elts[0].value, str):
+                    subs_.append(ast.copy_location(ast.Subscript(value=x.value, slice=sl, ctx=ast.Load()), x))
+        for sub in subs_:
             tag = sub.slice.elts[0].value
+            if any(isinstance(e, ast.Starred) for e in sub.slice.elts):
+                chk.instance(G15, f'{mname}: lookup {unparse(sub.slice)[:60]} has a starred part of variable length: not decided')
+                continue
             if tag not in gen:
                 continue
             kinds = tuple('name' if (isinstance(e, ast.Attribute) and e.attr == 'name') or isinstance(e, ast.Constant) else 'raw'
@@ -284,7 +305,7 @@ def run_g15(chk, G15, repo):
                               f'{kinds} (an object where its name is expected)', line=sub.lineno,
                               witness='least_number_of_transformations between INDIRECTEFFECT(LINEAR,PRODUCTION) and '
                                       'INDIRECTEFFECT(EMAX,DEGRADATION) raises KeyError')
-    if n < 4:
+    if n < 2:
         raise AnalysisError(f'G15: only {n} function look-ups found in the _lnt_ methods')
 
 
